@@ -267,7 +267,7 @@ def _list_items(nf):
     if isinstance(nf, tuple) and nf[0] == "tuple":
         return [("item", x) for x in nf[1]]
     src, val, conds = iter_view(nf)
-    return [("star", src, val) if not conds else ("star", src, val, "conditional")]
+    return [("star", src, val) if not conds else ("star", src, val, "conditional", tuple(c for c, _b in conds))]
 
 
 def iter_view(it):
@@ -633,6 +633,7 @@ class NF:
         not touch v). Returns (nf(e), conditional) or None."""
         body = H.strip(body)
         conditional = False
+        self._push_conds = []   # the conditions the push sits under (read by the builder right after)
         cur_env = env
         for _ in range(6):
             k = body.get("k")
@@ -652,8 +653,12 @@ class NF:
             if k == "If" and not body.get("else"):
                 c = H.strip(body["cond"])
                 if c.get("k") == "LetExpr":
+                    base = self.nf(c["init"], cur_env)
                     cur_env = cur_env.child()
-                    bind_pattern(c["pat"], self.nf(c["init"], cur_env), cur_env)
+                    bind_pattern(c["pat"], base, cur_env)
+                    self._push_conds.append(("islet", pat_label(c["pat"]), base))
+                else:
+                    self._push_conds.append(self.nf(c, cur_env))
                 conditional = True
                 body = H.strip(body["then"])
                 continue
@@ -815,8 +820,9 @@ class NF:
                 found = self._single_push(lid, e["body"], env3)
                 if found is not None and len(m) == 1:
                     arg_nf, conditional = found
+                    all_conds = tuple(c for c, _b in conds) + tuple(getattr(self, "_push_conds", []))
                     conditional = conditional or bool(conds)
-                    items.append(("star", src, arg_nf) if not conditional else ("star", src, arg_nf, "conditional"))
+                    items.append(("star", src, arg_nf) if not conditional else ("star", src, arg_nf, "conditional", all_conds))
                     accounted += 1
                     continue
             return ("unknown", f"local {pat['name']} is mutated through an unrecognised construct")
